@@ -68,6 +68,9 @@ def parseMOp? (ws : List String) : Option MOp :=
   match ws with
   | ["sa", p] => p.toNat?.map (MOp.create .sendAfter)
   | ["si", p] => p.toNat?.map (MOp.create .interval)
+  -- the same timers created through a `DerivedActorRef` (a textual copy in time.rs)
+  | ["dsa", p] => p.toNat?.map (MOp.create .sendAfter)
+  | ["dsi", p] => p.toNat?.map (MOp.create .interval)
   | ["ea", p] => p.toNat?.map (MOp.create .exitAfter)
   | ["ka", p] => p.toNat?.map (MOp.create .killAfter)
   | ["adv", d] => d.toNat?.map MOp.adv
